@@ -200,6 +200,7 @@ def observe(tid, case, variant, width=None):
     t = dict(id=tid, kind=kind, parent=parent, rank=rank, columns=cols if schema != "array" else ["X0", "X1", "X2"][:W],
              site=SITE_E, sig="schema=%s root=%s cols=%d" % (schema, kind[0], W), has_debug=False, has_dot=False,
              debug=[dict(seen=False, inid=-1, outid=-1, consistent=True) for _ in kind], same_output=True, second_alter_refused=True,
+             copy_ok=True, scorers_ok=True,
              dot=dict(parsed=True, err="", nodes=[], edges=[]))
     objs, objs2 = {}, {}
     with warnings.catch_warnings():
@@ -255,6 +256,40 @@ def observe(tid, case, variant, width=None):
                 t["second_alter_refused"] = False
             except AssertionError:
                 t["second_alter_refused"] = True
+            # scikit-learn's scorers on the altered pipeline (they find predict / predict_proba through its methods)
+            if method == "predict" and clf in (True, 2):
+                from sklearn.metrics import get_scorer
+                try:
+                    for name in ("accuracy", "neg_log_loss"):
+                        a_, b_ = get_scorer(name)(pipe, X, y), get_scorer(name)(ref, X, y)
+                        if not (a_ == b_ or (a_ != a_ and b_ != b_)):
+                            t["scorers_ok"] = False
+                except Exception as e:
+                    # a scorer that fails on the reference pipeline too says nothing about the wrappers
+                    try:
+                        get_scorer("accuracy")(ref, X, y), get_scorer("neg_log_loss")(ref, X, y)
+                        t["scorers_ok"] = False
+                    except Exception:
+                        pass
+            # a deep copy of the altered pipeline, the original trained again on other data afterwards
+            import copy
+            try:
+                had = [o for o in fitted_objects(pipe).values() if getattr(o, "_debug", None) is not None and o._debug.inputs]
+                twin = copy.deepcopy(pipe)
+                for o in fitted_objects(twin).values():          # the twin starts with empty records
+                    if getattr(o, "_debug", None) is not None:
+                        o._debug.inputs.clear(), o._debug.outputs.clear()
+                Xo = X * 3 + 1 if schema != "frame" else X * 3 + 1
+                pipe.fit(Xo, y[::-1])
+                got = getattr(twin, method)(X)
+                want = getattr(ref, method)(X)
+                t["copy_ok"] = bool(numpy.asarray(got).shape == numpy.asarray(want).shape and numpy.array_equal(got, want))
+                recorded = [o for o in fitted_objects(twin).values() if getattr(o, "_debug", None) is not None and o._debug.inputs]
+                if len(recorded) != len(had):
+                    t["copy_ok"] = False
+            except Exception as e:
+                t["copy_ok"] = False
+                t["copy_err"] = repr(e)[:160]
     return t
 
 
